@@ -260,7 +260,7 @@ pub fn with_deadline<T: Send + 'static, F: FnOnce() -> T + Send + 'static>(d: Du
     }
 }
 
-pub const HARD_EXTRA: Duration = Duration::from_secs(50);
+pub const HARD_EXTRA: Duration = Duration::from_secs(80);
 
 static SEQ: std::sync::atomic::AtomicU64 = std::sync::atomic::AtomicU64::new(0);
 
